@@ -101,6 +101,20 @@ def run(ctx):
         if cname != "CImportanceSampler" and all(o == "Rejected" for c, w, o in rows if c == cname):
             ctx.violation(f"routing:{cname[1:]}:no-way", f"{kind}: there is no way to supply a random generator (constructor, sample() and top-level call all reject it)",
                           {"class": kind})
+    # the kernel of EmceeSMC: emcee's EnsembleSampler draws from its OWN RandomState, which the real package seeds from the operating
+    # system unless the caller hands it a state; "the generator supplied by the user is the one actually used" includes the kernel
+    try:
+        import emcee as _emcee
+        _emcee.reset_counter(11)
+        a_, out_, tgt_, fl_ = sd.aspire_sample("emcee_smc", "numpy", 1, 8, 11, sample_kwargs={"rng": np.random.default_rng(11)})
+        unseeded = [e for e in _emcee.CREATED if not e.seeded_by_caller]
+        ctx.count(("route", "EmceeSMC", "kernel"), True, kind="routing")
+        if unseeded:
+            ctx.violation("routing:EmceeSMC:kernel", f"emcee_smc with a user generator: {len(unseeded)} of {len(_emcee.CREATED)} emcee.EnsembleSampler objects built by the "
+                          "mutation step were never given a random state derived from it (emcee then seeds itself from the operating system)",
+                          {"class": "emcee_smc", "way": "kernel"})
+    except Exception as e:
+        ctx.extra["emcee_kernel_probe_error"] = repr(e)[:200]
     t = ("From Coq Require Import List String Bool.\nFrom AV Require Import Gen.Routing Model.Routing.\nImport ListNotations.\n"
          "Eval vm_compute in ([" + "; ".join(f"source_eqb (route {c} {w}) {o}" for c, w, o in rows) + "]).\n")
     ok, out = common.coq_eval("C20_routing", t)
@@ -142,6 +156,20 @@ def run(ctx):
                                 [nsutil.to_float(v) for v in a.sampler.history.ess]]
                     return res
                 twice(f"{kind}:{nsname}", f, seed)
+        # "on the same inputs": the very same option objects handed to both runs (a dictionary of kernel options kept by the caller,
+        # with its own number of steps for the final enlargement)
+        if rep == 0:
+            for kind, shared in (("minipcn_smc", {"n_steps": 2, "n_final_steps": 5}), ("emcee_smc", {"nsteps": 2, "progress": False, "n_final_steps": 5})):
+                before = dict(shared)
+
+                def g(kind=kind, shared=shared, seed=seed):
+                    a, out, tgt, fl = sd.aspire_sample(kind, "numpy", 2, 10, seed, sample_kwargs={"sampler_kwargs": shared, "n_final_samples": 20,
+                                                                                                  "rng": np.random.default_rng(seed)})
+                    return [nsutil.to_list(out.x), nsutil.to_list(out.log_likelihood), [nsutil.to_float(out.log_evidence)], [tgt.ncalls]]
+                twice(f"{kind}:shared-sampler_kwargs", g, seed)
+                if shared != before:
+                    ctx.violation(f"callers-options-changed:{kind}", f"the sampler_kwargs dictionary handed to sample_posterior was {before} and is {shared} afterwards",
+                                  {"component": kind, "seed": seed, "sampler_kwargs": before})
         # flows: construction + training + sampling
         data = np.random.default_rng(seed).normal(size=(60, 2))
 
